@@ -12,7 +12,7 @@ EXPLANATION = (
     "instance of a class without instance state; (S5) every stateful class (mutated after construction, or derived from "
     "marko Markdown/Parser/Renderer/Source) and every factory returning one is instantiated only at call time, never at "
     "import time, in a default argument, or inside a cached function, and never parked in a module-level location; the "
-    "Markdown subclass rebuilds parser and renderer on every path of _setup_extensions; (S6) no mutable default arguments; "
+    "Markdown subclass rebuilds parser and renderer on every path of _setup_extensions; (S3b) no class of the package has a mutable class-level default (element subclasses are instantiated by marko); (S6) no mutable default arguments; "
     "(S7) every renderer field is initialised in __init__; thorough adds (S8) a scan of the marko modules on the parse/render "
     "path for process-wide state against a frozen, reasoned exemption list. If S1-S8 hold, every object mutated during a "
     "call is allocated by that call, so neither call history nor thread interleaving can influence a result."
